@@ -1,5 +1,5 @@
 From Coq Require Import Extraction ExtrOcamlBasic ZArith List String.
-From LP Require Import Num C13_Model.
+From LP Require Import Num C13_Model C13_Model2.
 Extraction Language OCaml.
 Extraction "C13_m.ml" parse_method gl_rule gl_integrate gl_sum_rows gl_fun_rows gl_rows integrate_eps find_epsilon integrate_named reentrant_integrand integrate_reentrant
-  integrate_2d integrate_3d integrate_3d_spherical run_call run_session run_process mc_region_2d mc_region_3d mc_ncalls Z.of_nat Z.to_nat.
+  integrate_2d integrate_3d integrate_3d_spherical run_call run_session run_process mc_region_2d mc_region_3d mc_ncalls boost_gauss30 boost_trapezoidal with_modelled_backends Z.of_nat Z.to_nat.
